@@ -767,7 +767,21 @@ func (fx *Fx) methID(name string) string {
 	return c
 }
 
+// untraced abstract callees: their results are arbitrary but they leave no entry in the ghost call trace
+// (pure observers whose calls no property talks about).
+var untraced = map[string]bool{"Logger": true, "Error": true, "Context": true, "Err": true, "Done": true}
+
 func (fx *Fx) abstractCall(st *State, recv string, meth string, args []Val, sig *types.Signature, call ast.Node) []Val {
+	if untraced[meth] {
+		var results []Val
+		if sig != nil {
+			for j := 0; j < sig.Results().Len(); j++ {
+				results = append(results, fx.freshVal(st, "r_"+meth, sig.Results().At(j).Type()))
+			}
+		}
+		fx.note("calls of " + meth + "() are not recorded in the ghost call trace")
+		return results
+	}
 	n := fx.trCount(st)
 	st.trCols["recv"] = app("store", fx.trCol(st, "recv", SRef), n, recv)
 	st.trCols["meth"] = app("store", fx.trCol(st, "meth", SInt), n, fmt.Sprint(fx.v.methNum(meth)))
@@ -1016,6 +1030,15 @@ func (fx *Fx) specBuiltin(st *State, call *ast.CallExpr) ([]Val, bool) {
 			panic(unsupported("hastype " + name))
 		}
 		return boolV(and(not(app("=", a.X, "nil")), app("=", app("dyntype", a.X), fmt.Sprint(fx.v.typeID(t))))), true
+	case "implements":
+		a := fx.eval(st, call.Args[0], true)
+		name := *fx.eval(st, call.Args[1], true).Lit
+		o := fx.pkg.types.Scope().Lookup(name)
+		if o == nil {
+			panic(unsupported("implements: no type " + name))
+		}
+		p := fx.d.declareFun("implements_"+typeKey(o.Type()), []string{SRef}, SBool)
+		return boolV(and(not(app("=", a.X, "nil")), app(p, a.X))), true
 	case "hasdyn":
 		// hasdyn(x, "TypeName"): the dynamic type of interface value x is the package's named type
 		a := fx.eval(st, call.Args[0], true)
